@@ -66,7 +66,10 @@ Fields == {
 }
 
 Generic == {"<delete>", "~", "0", "-1", "99999999999999999999", "1.5", "true", "\"\"", "\"garbage\"", "[]", "{}", "[{a: 1}]", "{a: b}", "[[1]]", "[~]",
-            "[\"\"]", "{1: 2}", "\"\\u00e9\\u4e2d\"", "<str:300>", "<str:70000>", "[[], []]", "{? [1] : 2}"}
+            "[\"\"]", "{1: 2}", "\"\\u00e9\\u4e2d\"", "<str:300>", "<str:70000>", "[[], []]", "{? [1] : 2}",
+            \* characters of 2, 3 and 4 octets, alone and next to the separators the string parsers split on
+            "\"\\u00e9\"", "\"\\u4e2d\"", "\"\\ud83d\\ude00\"", "\"\\u00e9:00:5e:00:53:01\"", "\"\\u00e9/24\"", "\"192.0.2.0/\\u0662\\u0664\"", "\"\\u00e9.\\u00e9\"",
+            "\"@\\u00e9\"", "\"1\\u00e9\"", "\"\\u00e9s\""}
 
 P4(n) == "\"192.0.2.0/" \o ToString(n) \o "\""
 P6(n) == "\"2001:db8::/" \o ToString(n) \o "\""
